@@ -34,6 +34,7 @@ def model_check(ctx: Ctx, consts: Dict[str, str], invariants: List[str], props: 
     """TLC on Grading.tla. With emit=True the same run also prints every Init configuration with its declarative
     outcome (initial states are computed, and their constraint evaluated, by a single thread, so the records are
     not interleaved even with 16 workers)."""
+    consts = {"Rounds": "1", **consts}
     text = cfg_text("Spec", consts, invariants, props, constraints=["EmitCfg"] if emit else [])
     res = run_tlc("Grading", "mc.cfg", cfg_text=text, workers=16, timeout=timeout)
     ctx.add_tlc(res)
@@ -43,6 +44,7 @@ def model_check(ctx: Ctx, consts: Dict[str, str], invariants: List[str], props: 
 
 
 def generate(ctx: Ctx, consts: Dict[str, str], timeout: int = 600) -> List[dict]:
+    consts = {"Rounds": "1", **consts}
     text = cfg_text("GenSpec", consts, [], constraints=["EmitCfg"])
     res = run_tlc("Grading", "gen.cfg", cfg_text=text, workers=1, timeout=timeout)
     ctx.add_tlc(res)
@@ -70,7 +72,12 @@ def observe(cfg: dict, ctx: Ctx, rng: random.Random, budget_factor: int = 8) -> 
     force_schedule(mesh, rng)
     nb = cfg["nb"]
     budget = budget_factor * (4 * nb + 2) * nb + 50
-    return run_write(mesh, budget, ctx.tmp)
+    obs = run_write(mesh, budget, ctx.tmp)
+    if cfg.get("rounds", 1) > 1 and obs["outcome"] == "Written":
+        # Grading.tla's Regrade: the user writes the same assembled mesh once more
+        force_schedule(mesh, rng)
+        obs["second"] = run_write(mesh, budget, ctx.tmp, tag="m2")
+    return obs
 
 
 def judge_outcome(prop: str, cfg: dict, obs: dict):
@@ -103,6 +110,17 @@ def judge_outcome(prop: str, cfg: dict, obs: dict):
         for e, cs in edge_counts.items():
             if len(cs) > 1:
                 return ("shared-edge-disagree", f"edge {sorted(e)} carries counts {sorted(cs)}")
+        if "second" in obs:
+            again = obs["second"]
+            if again["outcome"] != "Written":
+                return (f"rewrite:{again['outcome'].split(':')[0]}", f"writing the same mesh a second time ended with {again['outcome']}")
+            bad = judge_outcome(prop, cfg, again)
+            if bad:
+                return ("rewrite:" + bad[0], "second write of the same mesh: " + bad[1])
+            # where a family holds several user chops, which one an unchopped wire between them takes is left to the
+            # iteration order (only the counts are promised), so whole files are compared for single-law families only
+            if not cfg.get("multilaw", True) and canon(again) != canon(obs):
+                return ("rewrite:differs", "the second write of the same mesh differs from the first")
     return None
 
 
